@@ -316,7 +316,20 @@ class SymExec:
         if k == "member":
             if e["arrow"]:
                 return [(("fld", norm(t), e["field"]), s) for (t, s) in self.ev(e["base"], st)]
-            return [(("fld", loc, e["field"]), s) for (loc, s) in self.lval(e["base"], st)]
+            out = []
+            for (loc, s) in self.lval(e["base"], st):
+                # a record embedded at offset 0 (`node->base.key`) names the same bytes as the outer pointer cast to the
+                # embedded type (`((PTreeBaseNode *) node)->key`): one location for both spellings
+                bm = strip_expect(e["base"])
+                while bm is not None and bm["k"] == "cast":
+                    bm = bm["e"]
+                if loc[0] == "fld" and bm is not None and bm["k"] == "member" and bm.get("rec") in self.unit.records:
+                    f0 = self.unit.records[bm["rec"]].field(bm["field"])
+                    if f0 is not None and f0.get("off") == 0:
+                        out.append((("fld", loc[1], e["field"]), s))
+                        continue
+                out.append((("fld", loc, e["field"]), s))
+            return out
         if k == "idx":
             out = []
             for (b, s1) in self.ev(e["base"], st):
